@@ -50,11 +50,11 @@ Proof.
   destruct ((224 <=? b0) && (b0 <=? 239)) eqn:E3.
   { destruct s as [|b1 [|b2 s]]; try (intros [= <- <-]; lia).
     match goal with |- context[if ?c then _ else _] => destruct c eqn:C end; intros [= <- <-]; try lia.
-    destruct (b0 =? 224); lia. }
+    destruct (Z.eqb_spec b0 224), (Z.eqb_spec b0 237); lia. }
   destruct ((240 <=? b0) && (b0 <=? 244)) eqn:E4.
   { destruct s as [|b1 [|b2 [|b3 s]]]; try (intros [= <- <-]; lia).
     match goal with |- context[if ?c then _ else _] => destruct c eqn:C end; intros [= <- <-]; try lia.
-    destruct (b0 =? 240); lia. }
+    destruct (Z.eqb_spec b0 240), (Z.eqb_spec b0 244); lia. }
   intros [= <- <-]; lia.
 Qed.
 
@@ -119,6 +119,14 @@ Fixpoint iter (data : str) (k : nat) : option (str * position) :=
   | S k' => match iter data k' with Some s => step_state s | None => None end
   end.
 
+Lemma step_state_spec rest p s' : step_state (rest, p) = Some s' ->
+  rest <> [] /\ exists r w, Utf8.decode rest = (r, w) /\ s' = (skipn w rest, step_pos p r w).
+Proof.
+  unfold step_state. cbn [fst snd]. destruct rest as [|c t]; [discriminate|].
+  destruct (Utf8.decode (c :: t)) as [r w] eqn:Hd. intros [= <-].
+  split; [discriminate|]. eauto.
+Qed.
+
 Lemma at_pos_iter data rest p : at_pos data rest p <-> exists k, iter data k = Some (rest, p).
 Proof.
   split.
@@ -129,11 +137,7 @@ Proof.
   - intros (k & H). revert rest p H. induction k as [|k IH]; intros rest p H.
     + cbn in H. injection H as <- <-. constructor.
     + cbn in H. destruct (iter data k) as [[rest0 p0]|] eqn:E; [|discriminate].
-      unfold step_state in H. cbn [fst snd] in H.
-      destruct rest0 as [|c rest0] eqn:Er; [discriminate|]. rewrite <- Er in *.
-      destruct (Utf8.decode rest0) as [r w] eqn:Hd. 
-      assert (Hne : rest0 <> []) by (rewrite Er; discriminate).
-      destruct rest0; [congruence|]. injection H as <- <-.
+      apply step_state_spec in H as (Hne & r & w & Hd & [= -> ->]).
       eapply at_next; eauto.
 Qed.
 
@@ -141,12 +145,9 @@ Lemma iter_byte_mono data k s : iter data (S k) = Some s ->
   exists s0, iter data k = Some s0 /\ p_byte (snd s0) < p_byte (snd s).
 Proof.
   cbn. destruct (iter data k) as [[rest0 p0]|]; [|discriminate].
-  intros H. eexists; split; [reflexivity|]. unfold step_state in H. cbn [fst snd] in *.
-  destruct rest0 as [|c rest0] eqn:Er; [discriminate|]. rewrite <- Er in *.
-  destruct (Utf8.decode rest0) as [r w] eqn:Hd.
-  assert (Hne : rest0 <> []) by (rewrite Er; discriminate).
-  pose proof (decode_width _ _ _ Hne Hd).
-  destruct rest0; [congruence|]. injection H as <-. cbn [snd]. rewrite step_pos_byte. lia.
+  intros H. eexists; split; [reflexivity|].
+  apply step_state_spec in H as (Hne & r & w & Hd & ->).
+  pose proof (decode_width _ _ _ Hne Hd). cbn [snd]. rewrite step_pos_byte. lia.
 Qed.
 
 Lemma iter_byte_lt data k k' s s' : (k < k')%nat -> iter data k = Some s -> iter data k' = Some s' ->
@@ -194,13 +195,13 @@ Proof.
   destruct ((224 <=? b0) && (b0 <=? 239)) eqn:E3.
   { destruct s as [|b1 [|b2 s]]; try (intros [= <- <-]; cbn; rewrite H0; reflexivity).
     match goal with |- context[if ?c then _ else _] => destruct c eqn:C end; intros [= <- <-]; cbn; rewrite H0; cbn; try reflexivity.
-    assert (128 <= b1 /\ 128 <= b2) as [? ?] by (destruct (b0 =? 224); lia).
-    rewrite (neq10 b1), (neq10 b2) by lia. rewrite neq10 by lia. reflexivity. }
+    destruct (Z.eqb_spec b0 224), (Z.eqb_spec b0 237);
+      (rewrite (neq10 b1), (neq10 b2) by lia; rewrite neq10 by lia; reflexivity). }
   destruct ((240 <=? b0) && (b0 <=? 244)) eqn:E4.
   { destruct s as [|b1 [|b2 [|b3 s]]]; try (intros [= <- <-]; cbn; rewrite H0; reflexivity).
     match goal with |- context[if ?c then _ else _] => destruct c eqn:C end; intros [= <- <-]; cbn; rewrite H0; cbn; try reflexivity.
-    assert (128 <= b1 /\ 128 <= b2 /\ 128 <= b3) as (? & ? & ?) by (destruct (b0 =? 240); lia).
-    rewrite (neq10 b1), (neq10 b2), (neq10 b3) by lia. rewrite neq10 by lia. reflexivity. }
+    destruct (Z.eqb_spec b0 240), (Z.eqb_spec b0 244);
+      (rewrite (neq10 b1), (neq10 b2), (neq10 b3) by lia; rewrite neq10 by lia; reflexivity). }
   intros [= <- <-]; cbn; rewrite H0; reflexivity.
 Qed.
 
@@ -214,6 +215,70 @@ Proof.
     rewrite step_pos_byte, Hb. rewrite Hb, Nat2Z.id in IH.
     rewrite firstn_app, firstn_all, Nat.sub_diag, app_nil_r in IH.
     replace (Z.to_nat (Z.of_nat (length pre) + Z.of_nat w)) with (length pre + w)%nat by lia.
-    rewrite firstn_app_2, count_lf_app, Hlf, <- Z.add_assoc, <- IH.
-    unfold step_pos. destruct (r =? 10); cbn; lia.
+    rewrite firstn_app_2, count_lf_app, Hlf.
+    unfold step_pos. destruct (r =? 10); cbn [p_line]; lia.
+Qed.
+
+(* ---------------------------------------------------------------- the lexer state invariant *)
+
+(* positions_consistent, lexer part: in.pos is the position of in.remaining in the input,
+   and the consumed bytes followed by the remaining bytes are the input *)
+Definition linv (data : str) (st : lstate) : Prop :=
+  at_pos data (ls_rem st) (ls_pos st) /\ rev (ls_done st) ++ ls_rem st = data.
+
+Lemma linv_init data : linv data (init_state data).
+Proof. split; [constructor | reflexivity]. Qed.
+
+Definition rem_len (st : lstate) : nat := length (ls_rem st).
+
+Lemma read_rune_some st : ls_rem st <> [] -> exists r st', read_rune st = Some (r, st').
+Proof.
+  unfold read_rune. destruct (ls_rem st) as [|c t]; [congruence|]. intros _.
+  destruct (Utf8.decode (c :: t)). eauto.
+Qed.
+
+Lemma read_rune_none st : read_rune st = None -> ls_rem st = [].
+Proof.
+  unfold read_rune. destruct (ls_rem st) as [|c t]; [reflexivity|].
+  destruct (Utf8.decode (c :: t)). discriminate.
+Qed.
+
+Lemma read_rune_spec data st r st' : linv data st -> read_rune st = Some (r, st') ->
+  linv data st' /\ (rem_len st' < rem_len st)%nat /\
+  exists w, Utf8.decode (ls_rem st) = (r, w) /\ ls_rem st' = skipn w (ls_rem st) /\ ls_rem st <> [].
+Proof.
+  intros [Hp Hd]. unfold read_rune, rem_len.
+  destruct (ls_rem st) as [|c t] eqn:E; [discriminate|]. rewrite <- E in *.
+  assert (Hne : ls_rem st <> []) by (rewrite E; discriminate).
+  destruct (Utf8.decode (ls_rem st)) as [r0 w] eqn:Hdec.
+  destruct (ls_rem st) as [|c' t'] eqn:E'; [congruence|]. rewrite <- E' in *.
+  intros [= <- <-]. cbn [ls_rem ls_pos ls_done].
+  pose proof (decode_width _ _ _ Hne Hdec) as Hw.
+  split; [split|split].
+  - cbn [ls_rem ls_pos ls_done]. apply (at_next data _ _ _ _ Hp Hne Hdec).
+  - cbn [ls_rem ls_pos ls_done]. rewrite rev_append_rev, rev_app_distr, rev_involutive, <- app_assoc, firstn_skipn. exact Hd.
+  - cbn [ls_rem]. rewrite skipn_length. lia.
+  - exists w. cbn [ls_rem]. auto.
+Qed.
+
+Lemma peek_rune_decode st : ls_rem st <> [] -> peek_rune st = fst (Utf8.decode (ls_rem st)).
+Proof. unfold peek_rune. destruct (ls_rem st); [congruence|reflexivity]. Qed.
+
+Lemma eof_true st : eof st = true <-> ls_rem st = [].
+Proof. unfold eof. destruct (ls_rem st); split; congruence. Qed.
+
+Lemma eof_false st : eof st = false <-> ls_rem st <> [].
+Proof. unfold eof. destruct (ls_rem st); split; congruence. Qed.
+
+(* ---------------------------------------------------------------- tokens *)
+
+Lemma strip_eol_prefix (s : str) : exists t, s = strip_eol s ++ t.
+Proof.
+  unfold strip_eol. rewrite frev_rev. destruct (rev s) as [|a r] eqn:E; [exists []; symmetry; apply app_nil_r|].
+  assert (Hs : s = rev r ++ [a]) by (rewrite <- (rev_involutive s), E; reflexivity).
+  destruct (Z.eqb_spec a 10) as [->|Ha]; [|exists []; symmetry; apply app_nil_r].
+  destruct r as [|b r']; [rewrite frev_rev; exists [10]; exact Hs|].
+  destruct (Z.eqb_spec b 13) as [->|Hb]; rewrite frev_rev.
+  - exists [13; 10]. rewrite Hs. cbn [rev]. rewrite <- app_assoc. reflexivity.
+  - exists [10]. exact Hs.
 Qed.
